@@ -155,6 +155,21 @@ CLAIMS = {
               "deterministic FiniteStateController class cannot be constructed at all (its two shape assertions are swapped) and is "
               "therefore not a roll-out driver here."),
         ref='DESIGN.md section 4 C14'),
+    'C08': dict(
+        text=("point_based_value_iteration, PointBasedValueIteration.plan_on (belief expansion included), AlphaVectorPolicy and "
+              "QMDP (through the real policy iteration) are executed on symbolic rewards. The optimal k-horizon POMDP value "
+              "V_k*(b) is written independently as an expectimax z3 term over the concrete successor beliefs (episode ends at "
+              "absorbing states). z3 proves on every path: the PBVI value at every tested belief never exceeds V_k* for the "
+              "number of backups performed (hence V* + g^k Rmax/(1-g)), equals it where the belief set is closed under "
+              "successors (revealing kernel), alpha vectors are 0 on absorbing states, on an early exit the reported per-action "
+              "backup is the independently written point-based backup of the reported vectors; QMDP action values are the "
+              "belief-weighted optimal MDP action values (fresh Bellman fixed point) and its value is >= V_h* - g^h/(1-g) <= V*; "
+              "each policy's action distribution is uniform over exactly the maximisers of its own action values."),
+        note=("4 POMDP skeletons (2-3 states, 2 actions, 2-3 observations; absorbing state whose declared transitions leave it; "
+              "revealing kernel), belief sets {b0}, {b0+vertices}, {b0, centre, two vertices}, {vertices}; horizons 1-2 (3 for the "
+              "2-state early-exit runs; 1-3 thorough), 0-1 belief expansions; kernels / beliefs / discount concrete; the automatic "
+              "horizon (log of symbolic quantities) is exercised only in real-mode witness runs"),
+        ref='DESIGN.md section 4 C08'),
     'C09': dict(
         text=("Partly applicable. Decided by symbolic execution: (1) stochastic_fsc_policy_evaluation_exact (through a torch facade) "
               "on symbolic rewards and a symbolic initial node distribution: the (node,state) value table equals fresh unknowns "
